@@ -168,6 +168,11 @@ func initNatives() {
 			fv.ccMode = ccPreOnly
 			fv.applyContract(st, c, clo.Fn.String(), pn, cargs2, clo.Fn.Signature, &calleeInfo{fn: clo.Fn, clo: clo}, pos)
 			fv.ccMode = ccNormal
+			// ghost: the last file walked (contracts can demand that a check/commit really walks
+			// the file it is given)
+			if len(args[0].L) == 2 {
+				st.heap["GH_walked"] = args[0].L[1]
+			}
 			res := fv.freshResult(st, "walk", sig)
 			return res
 		},
